@@ -424,6 +424,14 @@ func createUpstreamRequest(rw http.ResponseWriter, r *http.Request) (*http.Reque
 		if prior, ok := outreq.Header["X-Forwarded-For"]; ok {
 			clientIP = strings.Join(prior, ", ") + ", " + clientIP
 		}
+		if !copiedHeaders {
+			// (the header map is still the incoming request's: what the
+			// access log shows of it - {request}, {>X-Forwarded-For} -
+			// must stay what the client sent)
+			outreq.Header = make(http.Header)
+			copyHeader(outreq.Header, r.Header)
+			copiedHeaders = true
+		}
 		outreq.Header.Set("X-Forwarded-For", clientIP)
 	}
 
